@@ -289,6 +289,262 @@ def index_ranges(ctx, rule='index-within-extent', bases=('Spectra::HermEigsBase'
         raise AnalysisBroken('only %d index obligations proved: fewer than on the tree confirmed by hand' % n_ok)
 
 
+# ---------------------------------------------------------------------------------------------------
+# D1b: the factorization's own index arithmetic
+# ---------------------------------------------------------------------------------------------------
+FN_, FM_, FK_ = ('f', 'm_n'), ('f', 'm_m'), ('f', 'm_k')
+
+
+def _prove_idx(fn, z, idx_node, ext_lf, strict, problems, what):
+    if not ranges.upper_forms(fn, idx_node):
+        problems.append('%s: index %s is outside the linear / min domain' % (what, fn.s(idx_node)))
+        return
+    if not ranges.nonneg(fn, z, idx_node):
+        problems.append('%s: cannot prove 0 <= %s' % (what, fn.s(idx_node)))
+    if not ranges.at_most(fn, z, idx_node, ext_lf, slack=-1 if strict else 0):
+        problems.append('%s: cannot prove %s %s extent' % (what, fn.s(idx_node), '<' if strict else '<='))
+
+
+def _check_sites(fn, rec, ext_of):
+    """All index / view sites of fn whose base has a known extent: returns (number of sites, problems)."""
+    problems = []
+    nsite = 0
+    for (x, b, kind, idxs) in _sites(fn):
+        z = rec.get(fn.pos_of(x))
+        e = ext_of(b)
+        if z is None or e is None:
+            continue
+        what = fn.s(x)[:50]
+        if kind in ('elem', 'coeff', 'coeffRef') and len(idxs) == len(e):
+            for i_, e_ in zip(idxs, e):
+                nsite += 1
+                _prove_idx(fn, z, i_, e_, True, problems, what)
+        elif kind in ('col',) and len(e) == 2:
+            nsite += 1
+            _prove_idx(fn, z, idxs[0], e[1], True, problems, what)
+        elif kind in ('leftCols', 'rightCols') and len(e) == 2:
+            nsite += 1
+            _prove_idx(fn, z, idxs[0], e[1], False, problems, what)
+        elif kind in ('head', 'tail') and len(e) == 1:
+            nsite += 1
+            _prove_idx(fn, z, idxs[0], e[0], False, problems, what)
+    for x in fn.walk():
+        z = rec.get(fn.pos_of(x)) if x['k'] in ('CXXConstructExpr', 'CXXTemporaryObjectExpr', 'CXXMemberCallExpr') else None
+        if z is None:
+            continue
+        if x['k'] == 'CXXMemberCallExpr' and x.get('callee') == 'block' and x.get('org') == 'E':
+            e = ext_of(fn.call_object(x))
+            a = fn.call_args(x)
+            if e is None or len(a) != 4 or len(e) != 2:
+                continue
+            nsite += 1
+            what = fn.s(x)[:60]
+            for y in a:
+                if not ranges.nonneg(fn, z, y):
+                    problems.append('%s: cannot prove %s >= 0' % (what, fn.s(y)))
+            for (o, l_, ee, nm) in ((a[0], a[2], e[0], 'rows'), (a[1], a[3], e[1], 'columns')):
+                ok = False
+                for U1 in ranges.upper_forms(fn, o):
+                    for U2 in ranges.upper_forms(fn, l_):
+                        tot = dict(U1)
+                        for k_, v_ in U2.items():
+                            tot[k_] = tot.get(k_, 0) + v_
+                        if ranges.prove_nonpos(z, ranges.lf_sub(tot, ee)):
+                            ok = True
+                if not ok:
+                    problems.append('%s: the block may extend past the last of the %s (%s + %s)' % (what, nm, fn.s(o), fn.s(l_)))
+        if x['k'] in ('CXXConstructExpr', 'CXXTemporaryObjectExpr') and x.get('ctor_of') == 'Eigen::Map':
+            a = [y for y in fn.call_args(x) if y['k'] != 'CXXDefaultArgExpr']
+            if len(a) < 2:
+                continue
+            p0 = fn.strip(a[0])
+            if p0['k'] == 'CXXMemberCallExpr' and p0.get('callee') == 'data':
+                e = ext_of(fn.call_object(p0))
+                if e is None:
+                    continue
+                nsite += 1
+                dims = a[1:]
+                if len(dims) == 2 and len(e) == 2:
+                    _prove_idx(fn, z, dims[0], e[0], False, problems, fn.s(x)[:40])
+                    _prove_idx(fn, z, dims[1], e[1], False, problems, fn.s(x)[:40])
+                elif len(dims) == 1:
+                    _prove_idx(fn, z, dims[0], e[0], False, problems, fn.s(x)[:40])
+            elif p0['k'] == 'UnaryOperator' and p0.get('op') == '&':
+                el = fn.strip(fn.nodes[p0['c'][0]])
+                if el['k'] == 'CXXOperatorCallExpr' and el.get('op') == '()':
+                    ea = fn.call_args(el)
+                    e = ext_of(ea[0])
+                    if e is None or len(e) != 2 or len(ea) != 3:
+                        continue
+                    nsite += 1
+                    r0 = ranges.linform(fn, ea[1])
+                    ln = ranges.linform(fn, a[1])
+                    if r0 is None or ln is None:
+                        problems.append('%s: non-linear view' % fn.s(x)[:40])
+                    else:
+                        tot = dict(r0)
+                        for k_, v_ in ln.items():
+                            tot[k_] = tot.get(k_, 0) + v_
+                        if not ranges.prove_nonpos(z, ranges.lf_sub(tot, e[0])):
+                            problems.append('%s: column view of length %s may run past the column' % (fn.s(x)[:40], fn.s(a[1])))
+    return nsite, problems
+
+
+def factorization_ranges(ctx, rule='factorization-index-within-extent'):
+    """Index arithmetic inside Arnoldi / Lanczos, for all (n, m, k): preconditions are checked at the call sites in the solver
+    bases (factorize_from(from_k >= 1, to_m <= m)) or follow from the shift accounting of C07-D3 (compress_V: 1 <= k <= m-1)."""
+    # extents from Arnoldi::init
+    n_fn = 0
+    for ini in ctx.F.insts('Spectra::Arnoldi::init'):
+        ext = {}
+        for x in ini.walk():
+            if x['k'] == 'CXXMemberCallExpr' and x.get('callee') == 'resize':
+                f = ini.field_name(ini.call_object(x))
+                if f:
+                    ext[f] = [ranges.linform(ini, a) for a in ini.call_args(x)]
+        want = {'m_fac_V': [{FN_: 1, 1: 0}, {FM_: 1, 1: 0}], 'm_fac_H': [{FM_: 1, 1: 0}, {FM_: 1, 1: 0}], 'm_fac_f': [{FN_: 1, 1: 0}]}
+        ok = all(ext.get(k) == v for k, v in want.items())
+        ctx.check(ok, rule, 'Arnoldi::init/extents', ini.qname, 'V is n x m, H is m x m, f has length n' if ok else 'factorization arrays are sized %s' % ext)
+    EXT = {'m_fac_V': [{FN_: 1, 1: 0}, {FM_: 1, 1: 0}], 'm_fac_H': [{FM_: 1, 1: 0}, {FM_: 1, 1: 0}], 'm_fac_f': [{FN_: 1, 1: 0}]}
+    # call-site preconditions
+    for base in ('Spectra::HermEigsBase', 'Spectra::GenEigsBase'):
+        inv = class_invariants(ctx, base)
+        for fname in ('compute', 'restart'):
+            for fn in ctx.F.insts(base + '::' + fname):
+                entry = inv.copy()
+                if fname == 'restart':
+                    p = ('v', fn.params[0])
+                    entry.add('Z', p, -1)
+                    entry.add(p, NCV, -1)
+                rec, _ = ranges.analyse(fn, entry)
+                for c in fn.walk():
+                    if c['k'] == 'CXXMemberCallExpr' and c.get('callee') == 'factorize_from':
+                        a = fn.call_args(c)
+                        z = rec.get(fn.pos_of(c))
+                        problems = []
+                        if z is None:
+                            problems.append('call site unreachable in the analysis')
+                        else:
+                            L0 = ranges.linform(fn, a[0])
+                            if L0 is None or not ranges.prove_nonpos(z, {**{k: -v for k, v in L0.items() if k != 1}, 1: 1 - L0.get(1, 0)}):
+                                problems.append('cannot prove from_k >= 1 for %s' % fn.s(a[0]))
+                            if sym(fn, a[1], inline=False) != ('F', 'm_ncv'):
+                                problems.append('to_m is %s, not the subspace dimension the factorization was built with' % fn.s(a[1]))
+                        ctx.check(not problems, rule, '%s::%s/factorize_from-precondition' % (base.replace('Spectra::', ''), fname), fn.qname,
+                                  'factorize_from(from_k >= 1, to_m = ncv)' if not problems else '; '.join(problems))
+                if fname == 'restart':
+                    qs = [sym(fn, d['init'], inline=False) for x in fn.walk() if x['k'] == 'DeclStmt' for d in x['decls'] if 'init' in d and fn.locals[d['var']]['name'] == 'Q']
+                    okq = len(qs) == 1 and qs[0][0] == 'call' and qs[0][1] == 'Identity' and qs[0][2:] == (('F', 'm_ncv'), ('F', 'm_ncv'))
+                    ctx.check(okq, rule, base.replace('Spectra::', '') + '::restart/Q', fn.qname, 'Q is ncv x ncv' if okq else 'Q is %s' % [show(q) for q in qs])
+        # the factorization is built with m = ncv
+        for c in [f for f in ctx.F.concrete() if f.cls == base and f.d.get('ctor')]:
+            ini = {i['member']: sym(c, i['expr'], inline=False) for i in c.inits}
+            t = ini.get('m_fac')
+            okm = t is not None and t[-1] == ('F', 'm_ncv')
+            ctx.check(okm, rule, base.replace('Spectra::', '') + '::ctor/m', c.qname, 'factorization dimension m = ncv' if okm else 'factorization built with %s' % (show(t) if t else None))
+    # members
+    for fn in ctx.F.concrete():
+        if fn.cls not in ('Spectra::Arnoldi', 'Spectra::Lanczos') or fn.name not in ('factorize_from', 'compress_V', 'init') or not fn.cfg:
+            continue
+        n_fn += 1
+        entry = DBM()
+        entry.add('Z', FM_, -2)          # m = ncv >= 2
+        entry.add(FM_, FN_, 0)           # m <= n
+        entry.add('Z', FK_, 0)
+        entry.add(FK_, FM_, 0)
+        lext = {}
+        if fn.name == 'factorize_from':
+            pf, pt = ('v', fn.params[0]), ('v', fn.params[1])
+            entry.add('Z', pf, -1)       # from_k >= 1   (checked at the call sites above)
+            entry.add(pt, FM_, 0)        # to_m <= m
+        if fn.name == 'compress_V':
+            entry.add('Z', FK_, -1)      # 1 <= k <= m - 1: k = restart size (C13 nev_adjusted range) by the shift accounting of C07-D3
+            entry.add(FK_, FM_, -1)
+            lext[('v', fn.params[0])] = [{FM_: 1, 1: 0}, {FM_: 1, 1: 0}]
+        rec, _ = ranges.analyse(fn, entry)
+        # local arrays
+        for x in fn.walk():
+            if x['k'] == 'DeclStmt':
+                for d in x['decls']:
+                    if 'var' in d and 'init' in d and fn.locals[d['var']]['type'].startswith('Eigen::Matrix<'):
+                        core = fn.strip(fn.nodes[d['init']], explicit_casts=False)
+                        if core['k'] in ('CXXConstructExpr', 'CXXTemporaryObjectExpr') and not core.get('copy') and not core.get('move'):
+                            args = [ranges.linform(fn, a) for a in fn.call_args(core) if a['k'] != 'CXXDefaultArgExpr']
+                            if args and all(a is not None for a in args):
+                                lext[('v', d['var'])] = args
+        def ext_of(b):
+            bs = fn.strip(b)
+            if bs is None:
+                return None
+            f = fn.field_name(bs)
+            if f in EXT:
+                return EXT[f]
+            if bs['k'] == 'DeclRefExpr' and 'var' in bs:
+                return lext.get(('v', bs['var']))
+            return None
+        nsite, problems = _check_sites(fn, rec, ext_of)
+        inst = '%s::%s' % (fn.cls.replace('Spectra::', ''), fn.name)
+        if nsite == 0 and fn.name != 'init':
+            raise AnalysisBroken('%s: no index site found' % fn.qname)
+        ctx.check(not problems, rule, inst, fn.qname,
+                  '%d index / view sites within V (n x m), H (m x m), f (n), Q (m x m) and the local work arrays, for all n, m, k' % nsite
+                  if not problems else '; '.join(sorted(set(problems))[:4]))
+    if n_fn < 15:
+        raise AnalysisBroken('only %d factorization members analysed' % n_fn)
+    # factorize_from leaves the advertised dimension equal to to_m on every path that did not return early
+    for fn in ctx.F.concrete():
+        if fn.cls in ('Spectra::Arnoldi', 'Spectra::Lanczos') and fn.name == 'factorize_from':
+            asg = [x for x in fn.walk() if x['k'] == 'BinaryOperator' and x.get('op') == '=' and sym(fn, x, inline=False) == ('=', ('F', 'm_k'), ('P', fn.locals[fn.params[1]]['name']))]
+            loops = [x for x in fn.walk() if x['k'] == 'ForStmt']
+            ok = len(asg) == 1 and bool(loops)
+            if ok:
+                # from the loop head, every normal exit passes the assignment
+                aid = asg[0]['id']
+                lp = fn.pos_of(fn.strip(fn.nodes[loops[0]['cond']]))
+                hit = paths.search(fn, paths.positions_of(fn, lambda n, l=loops[0]: fn.within(n, l['cond'])), stop=lambda n: n['id'] == aid,
+                                   target=lambda n: n['k'] == 'ReturnStmt', exit_is_target=lambda b: True, normal_only=True)
+                ok = hit is None
+            ctx.check(ok, rule, '%s::factorize_from/dimension' % fn.cls.replace('Spectra::', ''), fn.qname,
+                      'advertised dimension = to_m after the loop on every normal path' if ok else 'a normal path leaves the loop without updating the advertised dimension')
+
+
+def double_shift_blocks(ctx, rule='double-shift-block-within-matrix'):
+    """DoubleShiftQR::update_block(il, iu): every element access and every sub-block of the n x n work matrix stays inside it for
+    all 0 <= il <= iu <= n - 1 (block boundaries come from the increasing list of deflation points 0 = z0 < z1 < ... = n)."""
+    fns = ctx.F.insts('Spectra::DoubleShiftQR::update_block')
+    for fn in fns:
+        MN = ('f', 'm_n')
+        EXT = {'m_mat_H': [{MN: 1, 1: 0}, {MN: 1, 1: 0}], 'm_ref_nr': [{MN: 1, 1: 0}], 'm_ref_u': [{1: 3}, {MN: 1, 1: 0}]}
+        entry = DBM()
+        il, iu = ('v', fn.params[0]), ('v', fn.params[1])
+        entry.add('Z', il, 0)
+        entry.add(il, iu, 0)
+        entry.add(iu, MN, -1)
+        rec, _ = ranges.analyse(fn, entry)
+
+        def ext_of(b):
+            bs = fn.strip(b)
+            f = fn.field_name(bs) if bs is not None else None
+            return EXT.get(f)
+        nsite, problems = _check_sites(fn, rec, ext_of)
+        if nsite < 15:
+            raise AnalysisBroken('%s: only %d index sites found' % (fn.qname, nsite))
+        ctx.check(not problems, rule, 'DoubleShiftQR::update_block', fn.qname,
+                  '%d element / sub-block sites inside the n x n matrix for every block [il, iu]' % nsite if not problems else '; '.join(sorted(set(problems))[:4]))
+    # the caller hands over consecutive deflation points: start = z[i], end = z[i+1] - 1, z starts with 0, ends with n, and
+    # grows by pushing i + 1 for increasing i
+    for fn in ctx.F.insts('Spectra::DoubleShiftQR::compute'):
+        calls = [x for x in fn.walk() if x['k'] == 'CXXMemberCallExpr' and x.get('callee') == 'update_block']
+        ok = len(calls) == 1
+        if ok:
+            a = [sym(fn, y) for y in fn.call_args(calls[0])]
+            ok = a[0][0] == '[]' and a[1][0] == '-' and a[1][1][0] == '[]' and a[1][2] == ('lit', '1') and a[1][1][2] == ('+', a[0][2], ('lit', '1'))
+            pushes = [sym(fn, fn.call_args(x)[0], inline=False) for x in fn.walk() if x['k'] == 'CXXMemberCallExpr' and x.get('callee') == 'push_back']
+            ok = ok and pushes[0] == ('lit', '0') and pushes[-1] == ('F', 'm_n') and all(p[0] == '+' and p[2] == ('lit', '1') for p in pushes[1:-1])
+        ctx.check(ok, rule, 'DoubleShiftQR::compute/blocks', fn.qname,
+                  'blocks are [z_i, z_{i+1} - 1] for the increasing deflation points 0 = z_0 < ... < z_len = n' if ok else 'block boundaries are not consecutive deflation points')
+
+
 def _show_lin(fn, lin):
     v, c = lin
     if v == 'Z':
@@ -552,7 +808,11 @@ def application_bound(ctx, rule='operator-application-bound'):
 
 
 def run(ctx):
+    # member calls kill only the integer fields their callee may write (interprocedural may-write summaries)
+    zone.CALL_MAY_WRITE = lambda fn, call: set(p[0] for p in ctx.E.call_may_write(fn, call) if p)
     index_ranges(ctx)
+    factorization_ranges(ctx)
+    double_shift_blocks(ctx)
     operator_buffers(ctx)
     loop_progress(ctx)
     application_bound(ctx)
